@@ -167,7 +167,10 @@ func main() {
 			nw = 200 + rng.Intn(300) // many small writes against a concurrently draining consumer
 		}
 		u := &under{b: wb, unit: 1}
-		tight := run == *runs-2 || run == *runs/2 // tens of thousands of tiny writes against a consumer receiving in a tight loop, nothing in between
+		// paced: as tight, but the consumer is now slower, now faster than the writer (it spins for a random short while between two
+		// receives), so that the writer keeps finding the previous value not yet taken - and the consumer takes it at any moment
+		paced := run == *runs/3 || run == *runs/4 || run == *runs-3
+		tight := paced || run == *runs-2 || run == *runs/2 // tens of thousands of tiny writes against a consumer receiving in a tight loop, nothing in between
 		if tight {
 			nw = 30000
 			u.quiet = true
@@ -285,9 +288,24 @@ func main() {
 				time.Sleep(time.Duration(100+rng.Intn(400)) * time.Microsecond)
 			}
 			lastV, anyV := 0, false
+			rng2 := rand.New(rand.NewSource(int64(run) + vio.Seed()))
+			spin := 0
+			_ = spin
 			for {
 				v, ok := <-pw.Status()
 				if tight && ok {
+					if paced {
+						for k, n := 0, rng2.Intn(400); k < n; k++ {
+							spin++
+						}
+						if rng2.Intn(8) == 0 {
+							runtime.Gosched()
+						}
+					}
+					if v < lastV {
+						cb.Emit(ev{E: "r", N: lastV, OK: true}) // a decrease is recorded with its predecessor
+						cb.Emit(ev{E: "r", N: v, OK: true})
+					}
 					lastV, anyV = v, true // tight run: received values are not recorded one by one
 					continue
 				}
